@@ -385,7 +385,16 @@ func (X *Exec) loopVars(fr *Frame, li *loopInfo, st *State) map[string]*Val {
 			if a, ok := s.Addr.(*ssa.Alloc); ok && a.Comment == "rangeindex" {
 				if c := fr.Cells[a]; c != nil {
 					if t, ok := st.Cells[c]; ok {
-						return map[string]*Val{"rangeindex": {T: t, GT: c.Type}}
+						out := map[string]*Val{"rangeindex": {T: t, GT: c.Type}}
+						// `rangelen`: the length the range loop runs up to (evaluated once, before the loop)
+						for _, ins2 := range li.Head.Instrs {
+							if b, ok := ins2.(*ssa.BinOp); ok && b.Op == token.LSS {
+								if v, ok := fr.Regs[b.Y]; ok && v.T != nil {
+									out["rangelen"] = v
+								}
+							}
+						}
+						return out
 					}
 				}
 			}
